@@ -480,14 +480,15 @@ class ExcelCompiler:
             cell_or_range.value = value
 
     def _reset(self, cell, force=False):
-        if cell.needs_calc and not force:
+        if cell.needs_calc and not force and not cell.value_unknown:
             return
         self.log.info(f"Resetting {cell.address}")
         cell.value = None
+        cell.value_unknown = False
 
         if cell in self.dep_graph:
             for child_cell in self.dep_graph.successors(cell):
-                if child_cell.value is not None:
+                if child_cell.value is not None or child_cell.value_unknown:
                     self._reset(child_cell)
 
     def value_tree_str(self, address, indent=0):
@@ -761,6 +762,10 @@ class ExcelCompiler:
                 value = None
             a_cell = self.Cell(excel_cell.address, value=value,
                                formula=excel_cell.formula, excel=self.excel)
+            if excel_cell.formula and value is None and not self._values_changed:
+                # a stored empty text result is read as None, the cells which
+                # depend on this one can hold their stored results
+                a_cell.value_unknown = True
             self.cell_map[str(excel_cell.address)] = a_cell
             return [a_cell]
 
@@ -1094,6 +1099,9 @@ class ExcelCompiler:
 class _CellBase:
 
     value = None
+
+    # a value of None which was read from the workbook, not set by a reset
+    value_unknown = False
 
     def __init__(self, address=None, formula='', excel=None):
         formula_is_python_code = excel is None or isinstance(
